@@ -28,6 +28,60 @@ type rawLink struct {
 	ts     string
 }
 
+// sweepKinds are the PixelData faults the enumerated fault sweep places in every
+// codec's Encode and Decode (one fault per history, at the first or the last frame).
+var sweepKinds = []string{"get-err", "add-err", "short", "long", "empty", "nil", "count-", "count+"}
+
+// nSweep is the size of the enumerated fault sweep: codec x {enc,dec} x fault kind.
+func nSweep() int { return len(allTS) * 2 * len(sweepKinds) }
+
+// genSweep builds history number j of the fault sweep: a clean 2- or 3-frame
+// Encode, then the faulted call, then a fault-free call on the same codec (I6).
+func genSweep(seed uint64, j int) (spec.Run, c10Meta) {
+	r := spec.NewRng(seed).Child(3)
+	ts := allTS[j%len(allTS)]
+	kind := []string{"enc", "dec"}[(j/len(allTS))%2]
+	fk := sweepKinds[(j/(2*len(allTS)))%len(sweepKinds)]
+	in := genInfo(r, ts, genOpt{maxDim: 16})
+	nf := 2 + r.Intn(2)
+	fs := genFrames(r, nf)
+	k := []int{0, nf - 1}[r.Intn(2)]
+	var f spec.Fault
+	switch fk {
+	case "count-":
+		f = spec.Fault{Kind: "count", N: -1}
+	case "count+":
+		f = spec.Fault{Kind: "count", N: 1}
+	case "short":
+		f = spec.Fault{Kind: "short", K: k, N: 1 + r.Intn(9)}
+	case "long":
+		f = spec.Fault{Kind: "long", K: k, N: 1}
+	default:
+		f = spec.Fault{Kind: fk, K: k}
+	}
+	clean := spec.Op{Kind: "enc", TS: ts, Info: in, Frames: fs, From: -1, Params: spec.Params{Mode: "nil"}}
+	var ops []spec.Op
+	if kind == "enc" {
+		bad := clean
+		if fk == "add-err" {
+			bad.SinkFaults = []spec.Fault{f}
+		} else {
+			bad.SrcFaults = []spec.Fault{f}
+		}
+		ops = []spec.Op{bad, clean, {Kind: "dec", TS: ts, Info: in, From: 1, Params: spec.Params{Mode: "nil"}}}
+	} else {
+		bad := spec.Op{Kind: "dec", TS: ts, Info: in, From: 0, Params: spec.Params{Mode: "nil"}}
+		if fk == "add-err" {
+			bad.SinkFaults = []spec.Fault{f}
+		} else {
+			bad.SrcFaults = []spec.Fault{f}
+		}
+		ops = []spec.Op{clean, bad, {Kind: "dec", TS: ts, Info: in, From: 0, Params: spec.Params{Mode: "nil"}}}
+	}
+	return spec.Run{Mode: "history", Seed: seed, Tasks: []spec.Task{{Ops: ops}}, StepCap: 3e9},
+		c10Meta{Shape: "fault-sweep", Faulted: true, TS: []string{ts}}
+}
+
 func genHistory(seed uint64, idx int, thorough bool) (spec.Run, c10Meta) {
 	r := spec.NewRng(seed).Child(1)
 	meta := c10Meta{}
@@ -518,13 +572,22 @@ func checkC10(o checkOpts) int {
 	b := NewBuild("plain")
 	logf("C10: VERIF_SEED=%d tier=%s tree=%s build=%.1fs", o.seed, o.tier, b.Tree, b.BuildS)
 	thorough := o.tier == "thorough"
-	N := o.n(336, 20000)
+	nGen := o.n(336, 20000)
+	sweepRounds := 1
+	if thorough {
+		sweepRounds = 8
+	}
+	N := nGen + sweepRounds*nSweep()
 	findings := loadFindings()
 	runs := make([]spec.Run, N)
 	metas := make([]c10Meta, N)
 	for i := 0; i < N; i++ {
 		s := spec.SplitMix64(o.seed ^ spec.SplitMix64(uint64(i)+0xC10))
-		runs[i], metas[i] = genHistory(s, i, thorough)
+		if i < nGen {
+			runs[i], metas[i] = genHistory(s, i, thorough)
+		} else {
+			runs[i], metas[i] = genSweep(s, i-nGen)
+		}
 	}
 	results := make([]*spec.Result, N)
 	fatals := make([]string, N)
@@ -617,7 +680,10 @@ func checkC10(o checkOpts) int {
 		}
 		nViol++
 		exit = 1
-		mv, from := minimiseC10(b, v, rc)
+		mv, from := v, "not minimised: only the first 4 signatures of a run are minimised"
+		if nViol <= 4 {
+			mv, from = minimiseC10(b, v, rc)
+		}
 		rep := reproduceC10(b, &mv, rc, 2)
 		p := writeReplay(&mv, rep, b.Tree, from)
 		fmt.Printf("VIOLATION property=C10 replay=%s\n", p)
